@@ -182,18 +182,18 @@ element of an odd length is reversed twice and the second store wins) into a `ma
 arrays allocated by the call and nothing that existed is written (the seeded change "`Ordered.Reverse`
 reverses the receiver's parts in place" is what this excludes); on a readable receiver the result
 reads as `Loc.reverse l len`; a readable receiver has a result, the same for all large fuels. -/
-theorem reverse_fresh (g : Grow) (len : Int) (k : Nat) (h : LHeap) (m : MLoc) {r : MLoc × LHeap}
+theorem locReverse_fresh (g : Grow) (len : Int) (k : Nat) (h : LHeap) (m : MLoc) {r : MLoc × LHeap}
     (he : reverseMem g len k h m = some r) :
     h <+: r.2 ∧ RefsAbove h.length r.1 ∧ Closed h.length r.2 :=
   have p := reverseMem_fresh g len k h m r he
   ⟨p.pre, p.refs, p.closed⟩
 
-theorem reverse_refines (g : Grow) (len : Int) (k : Nat) {h : LHeap} {m : MLoc} {l : Loc}
+theorem locReverse_refines (g : Grow) (len : Int) (k : Nat) {h : LHeap} {m : MLoc} {l : Loc}
     (hl : Reads h l m) {r : MLoc × LHeap} (he : reverseMem g len k h m = some r) :
     Reads r.2 (l.reverse len) r.1 :=
   reverseMem_refines g len k h m r l he hl
 
-theorem reverse_total (g : Grow) (len : Int) {h : LHeap} {m : MLoc} {l : Loc} (hl : Reads h l m) :
+theorem locReverse_total (g : Grow) (len : Int) {h : LHeap} {m : MLoc} {l : Loc} (hl : Reads h l m) :
     ∃ k0 r, ∀ k, k0 ≤ k → reverseMem g len k h m = some r := by
   obtain ⟨k0, r, e⟩ := reverseMem_total g len l h m hl
   exact ⟨k0, r, fun k hk => reverseMem_le g len k0 k hk h m r e⟩
